@@ -9,7 +9,7 @@ D-c  node identifiers are used only as dictionary keys and equality operands in 
 D-d  sibling agreement of the direct and inverse counting code; shape labels are a function of the class only.
 Undecided: which alternative wins a frequency tie (the property allows it to vary)."""
 from ..report import Floor
-from ..rules import count, twin, memo, det, nodeids, gens, scanner, plumb, mergetable
+from ..rules import count, twin, memo, det, nodeids, gens, scanner, plumb, mergetable, loops
 from .. import exceptions
 
 
@@ -33,6 +33,7 @@ def check(ctx, tier):
     obs += ctx.attempt(lambda c, cl: plumb.no_cross_option_flow(c, cl)[0], ctx, "D-g", default=[])
     obs += ctx.attempt(lambda c, cl: mergetable.invariants(c, cl, which=('order-free',))[0], ctx, "D-h", default=[])
     obs += ctx.attempt(scanner.nt_document_table, ctx, "D-i", default=[])
+    obs += ctx.attempt(loops.every_yielded_item_is_kept, ctx, "D-j", "shexer.core.shexing.class_shexer:ClassShexer._build_shapes", "shape", default=[])
     exceptions.apply(obs)
     floors = [Floor("accumulator increments (+= 1)", counts.get("inc", 0), 9), Floor("accumulation loops", n_loops, 8),
               Floor("memo sites", n_memo, 3), Floor("set constructions", n_sets, 10), Floor("node-identifier uses", n_ids, 15)]
